@@ -115,8 +115,7 @@ Definition ext_instr (i : instr) : bool :=
   | _ => false
   end.
 Definition wf (s : state) : Prop :=
-  (forall a x, get s a = Some x -> pend_shape x) /\
-  (forall i ex, nth_error (exts s) i = Some ex -> forallb ext_instr (x_pend ex) = true).
+  Forall pend_shape (actors s) /\ Forall (fun ex => forallb ext_instr (x_pend ex) = true) (exts s).
 
 (** * quiescence (C09): nothing pending anywhere, every consumer idle, nothing processable queued *)
 Definition idle_actor (x : actor) : bool :=
@@ -193,3 +192,87 @@ Fixpoint drive_all (fuel : nat) (s : state) : list event :=
            | None => []
            end
   end.
+
+(** * per-index views of the actor table (the default is the value of a record that does not exist yet) *)
+Definition sq_at (s : state) (b : aid) : list envelope := match get s b with Some x => a_sq x | None => [] end.
+Definition uq_at (s : state) (b : aid) : list envelope := match get s b with Some x => a_uq x | None => [] end.
+Definition held_at (s : state) (b : aid) : list envelope := match get s b with Some x => held x | None => [] end.
+Definition paused_at (s : state) (b : aid) : bool := match get s b with Some x => a_paused x | None => false end.
+Definition cons_at (s : state) (b : aid) : cons := match get s b with Some x => a_cons x | None => C0 end.
+
+(** the actor whose thread / consumer an event belongs to *)
+Definition event_actor (ev : event) : aid :=
+  match ev with
+  | EvSysPop a | EvLoadPaused a | EvUserPop a | EvHandle a => a
+  | EvPush t _ | EvEnqDone t | EvPauseSt t | EvResume1 t | EvResume2 t => self_of t
+  | EvStart _ => 0
+  end.
+
+(** what an event appends to / removes from the head of actor [b]'s queues *)
+Definition pushed_to (s : state) (ev : event) (b : aid) (sys : bool) : list envelope :=
+  match ev with
+  | EvPush t c => match push_of s t c with
+                  | Some (tgt, e) => if Nat.eqb tgt b && Bool.eqb (e_sys e) sys then [e] else []
+                  | None => []
+                  end
+  | _ => []
+  end.
+Definition popped_from (s : state) (ev : event) (b : aid) (sys : bool) : list envelope :=
+  match ev, sys with
+  | EvSysPop a, true =>
+      if Nat.eqb a b then match get s a with
+                          | Some x => match a_cons x, a_sq x with (C0 | C1), e :: _ => [e] | _, _ => [] end
+                          | None => [] end
+      else []
+  | EvUserPop a, false =>
+      if Nat.eqb a b then match get s a with
+                          | Some x => match a_cons x, a_uq x with C3, e :: _ => [e] | _, _ => [] end
+                          | None => [] end
+      else []
+  | _, _ => []
+  end.
+(** along a run *)
+Fixpoint pushed_run (b : aid) (sys : bool) (evs : list event) (s : state) : list envelope :=
+  match evs with [] => [] | ev :: r => pushed_to s ev b sys ++ pushed_run b sys r (step s ev) end.
+Fixpoint popped_run (b : aid) (sys : bool) (evs : list event) (s : state) : list envelope :=
+  match evs with [] => [] | ev :: r => popped_from s ev b sys ++ popped_run b sys r (step s ev) end.
+
+(** the envelope an event takes out of the consumer's hands (gives to HandleEnvelop) *)
+Definition handled_at (s : state) (ev : event) (b : aid) : list envelope :=
+  match ev with
+  | EvHandle a => if Nat.eqb a b then match handle_of s a with Some e => [e] | None => [] end else []
+  | _ => []
+  end.
+
+(** the last Pause / Resume word of actor [b]'s own mailbox along an event list *)
+Definition own_pause_word (ev : event) (b : aid) : option bool :=
+  match ev with
+  | EvPauseSt t => if Nat.eqb (self_of t) b then Some true else None
+  | EvResume1 t => if Nat.eqb (self_of t) b then Some false else None
+  | _ => None
+  end.
+Fixpoint last_pause_word (b : aid) (evs : list event) (acc : option bool) : option bool :=
+  match evs with
+  | [] => acc
+  | ev :: r => last_pause_word b r (match own_pause_word ev b with Some v => Some v | None => acc end)
+  end.
+
+(** what HandleEnvelop itself records in the ghost log for envelope [e] at actor record [x] *)
+Definition dispatch_ghost (x : actor) (e : envelope) : list obs :=
+  if is_dead x e && negb (a_zombie x) then
+    match a_parent x with None => [ODropped (e_msg e)] | Some _ => [] end
+  else match e_msg e, a_parent x with
+       | MDeadLetter sys m, None => [ODeadLetter sys m]
+       | _, _ => []
+       end.
+Definition event_ghost (s : state) (ev : event) : list obs :=
+  match ev with
+  | EvHandle a => match get s a with
+                  | Some x => match a_cons x with CH e => dispatch_ghost x e | _ => [] end
+                  | None => []
+                  end
+  | _ => []
+  end.
+Fixpoint run_ghost (evs : list event) (s : state) : list obs :=
+  match evs with [] => [] | ev :: r => event_ghost s ev ++ run_ghost r (step s ev) end.
+Definition not_guard_closed (o : obs) : bool := match o with OGuardClosed => false | _ => true end.
